@@ -581,6 +581,30 @@ func genCases(tier string) []caseSpec {
 		Rules: []string{"config:show_disasm", "config:show_pc", "config:show_ticks", "relative:4:set:i0:9"}})
 	cs = append(cs, caseSpec{ID: n + 20, P: 3, Rsize: 8, Ticks: 10, Progs: shProgs,
 		Rules: []string{"config:show_instruction", "config:show_proc_regs_pre", "config:show_io_post", "absolute:2:set:i0:1"}})
+	// several absolute set rules for the SAME tick and the SAME object (a later rule overrides an earlier
+	// one), on objects that are not the first one named by a set rule (inputs and processor registers)
+	dupProgs := [][]string{{"i2r r2 i0", "add r0 r1", "add r0 r3", "r2o r0 o0", "j 0"}, {"add r0 r2", "inc r1", "r2o r0 o0", "j 0"}}
+	cs = append(cs, caseSpec{ID: n + 80, P: 1, Rsize: 8, Ticks: 8, Progs: dupProgs[:1], Rules: []string{
+		"absolute:0:set:i0:4", "absolute:0:set:p0r1:7", "absolute:0:set:p0r3:2", "absolute:0:set:p0r1:11"}})
+	for q := 0; q < 3; q++ {
+		P := 1 + rng.Intn(2)
+		objs := []string{"i0", "p0r1", "p0r3"}
+		if P > 1 {
+			objs = append(objs, "p1r2", "p1r0")
+		}
+		var rules []string
+		ticks := []int{0, 2 + rng.Intn(3)}
+		for _, t := range ticks {
+			for _, o := range objs { // every object once, in order: i0 is the first registered
+				rules = append(rules, fmt.Sprintf("absolute:%d:set:%s:%d", t, o, 1+rng.Intn(20)))
+			}
+			for d := 0; d < 1+rng.Intn(2); d++ { // duplicates on the 2nd..nth object, different value
+				o := objs[1+rng.Intn(len(objs)-1)]
+				rules = append(rules, fmt.Sprintf("absolute:%d:set:%s:%d", t, o, 30+rng.Intn(20)))
+			}
+		}
+		cs = append(cs, caseSpec{ID: n + 81 + q, P: P, Rsize: []int{8, 16}[rng.Intn(2)], Ticks: 10 + rng.Intn(6), Progs: dupProgs[:P], Rules: rules})
+	}
 	// stimuli written in every notation of the number library (plain, 0u, 0d, 0x, 0b, sized forms, 0f; values
 	// ending in zeros): the same text must mean the same value in every run
 	cs = append(cs, caseSpec{ID: n + 14, P: 1, Rsize: 16, Ticks: 26, Progs: [][]string{ioProg}, Rules: []string{
